@@ -193,7 +193,11 @@ def run_case(c):
         lo = np.array(c["lower"], dtype=float)
         hi = np.array(c["upper"], dtype=float)
         side = hi - lo
-        ev = Evolvent(c["lower"], c["upper"], N, m)
+        if c["i"] % 3 == 1:
+            # the curve as the optimiser's user meets it: Solver.evolvent of a Solver configured with this box and density
+            ev = em.solver_evolvent(c["lower"], c["upper"], N, m, rng, obs)
+        else:
+            ev = Evolvent(c["lower"], c["upper"], N, m)
         un = em.unit_evolvent(N, m)
         tol = 8 * np.spacing(np.maximum(np.maximum(np.abs(lo), np.abs(hi)), side))
         xs = [0.0, 1.0, 0.5, float(np.nextafter(1.0, 0.0))] + [float(v) for v in rng.random(c["nx"])]
@@ -209,6 +213,25 @@ def run_case(c):
                     viol.append({"mech": "image-outside-box", "x": x, "image": y.tolist(), "lower": c["lower"], "upper": c["upper"]})
             if N == 1 and not (np.all(y >= lo - tol) and np.all(y <= hi + tol)):
                 pass
+        if N > 1 and N * m <= 20:
+            # on a box too: a window of consecutive subintervals lands in pairwise distinct cells of the configured grid
+            n = 1 << (N * m)
+            a0 = int(rng.integers(0, max(1, n - 256)))
+            seen = {}
+            gtol = np.maximum(1e-6, 8.0 * np.spacing(np.maximum(np.abs(lo), np.abs(hi))) / side * (2.0 ** m))
+            if np.all(gtol < 0.1):
+                for i in range(a0, min(n, a0 + 256)):
+                    q = (ev.GetImage((i + 0.5) / n) - lo) / side * (2.0 ** m) - 0.5
+                    j = np.rint(q)
+                    if np.any(np.abs(q - j) > gtol) or np.any(j < 0) or np.any(j >= 2 ** m):
+                        if len(viol) < 5:
+                            viol.append({"mech": "box-image-not-a-cell-centre-of-the-configured-grid", "i": i, "N": N, "m": m, "grid_coordinate": q.tolist(),
+                                         "lower": c["lower"], "upper": c["upper"]})
+                    t = tuple(int(v) for v in j)
+                    if t in seen and len(viol) < 5:
+                        viol.append({"mech": "two-subintervals-one-cell", "i": i, "other": seen[t], "cell": list(t), "N": N, "m": m, "lower": c["lower"], "upper": c["upper"]})
+                    seen[t] = i
+                obs["box_window_cells"] = len(seen)
         obs.update({"box_images": len(xs), "boxes": 1})
         return {"violations": viol, "obs": obs, "nontrivial": True, "key": "box|%d|%d|%d" % (N, m, c["i"]),
                 "sample": {"kind": "box", "N": N, "m": m, "lower": c["lower"], "upper": c["upper"], "points": len(xs)} if c["i"] < 2 else None}
@@ -285,6 +308,8 @@ def run_case(c):
 
 
 def finalize(obs, tier, stats):
+    if not obs.get("evolvents_built_by_a_solver") or not obs.get("box_window_cells"):
+        return "no Solver-built evolvent / no window on a box was examined", {}
     viol = []
     full = {}
     groups = {}
